@@ -2,15 +2,16 @@
 // bind all.
 //
 // Over the transactions and blocks of generated histories:
-//   (1) every exported leaf field of every transaction is mutated (reflection)
-//       and all IDs / hashes / sighashes are compared before and after; a rule
-//       table says for each (hash, field class) whether the statement demands a
-//       change, forbids one, or says nothing;
-//   (2) collision matrix: every derived ID of every object goes into one table
-//       labelled (kind, index); equal IDs under different labels are violations;
-//   (3) era / purpose separation of signature hashes;
-//   (4) block binding: every content mutation of an accepted block that keeps
-//       the header fields must make ValidateBlock reject or change Block.ID().
+//
+//	(1) every exported leaf field of every transaction is mutated (reflection)
+//	    and all IDs / hashes / sighashes are compared before and after; a rule
+//	    table says for each (hash, field class) whether the statement demands a
+//	    change, forbids one, or says nothing;
+//	(2) collision matrix: every derived ID of every object goes into one table
+//	    labelled (kind, index); equal IDs under different labels are violations;
+//	(3) era / purpose separation of signature hashes;
+//	(4) block binding: every content mutation of an accepted block that keeps
+//	    the header fields must make ValidateBlock reject or change Block.ID().
 package main
 
 import (
@@ -491,6 +492,9 @@ func run(b *harness.B) {
 		c := chaingen.NewChain(net, rng)
 		e := &env{b: b, c: c, per: b.Pick(60, 200), ids: map[[32]byte]string{}}
 		c.OnAccepted = func(cs consensus.State, orig types.Block, bs consensus.V1BlockSupplement, kinds []string) {
+			if len(kinds) >= 3 {
+				b.Sample(chaingen.DescribeBlock(cs, orig, kinds))
+			}
 			b.Count("accepted_blocks", 1)
 			b.SetAdd("eras", chaingen.Era(net.N, cs.Index.Height+1))
 			e.collect(cs, orig)
